@@ -20,7 +20,7 @@ F = ("const", "bool", False)
 # ------------------------------------------------------------------ C07 flags
 
 
-@rule("FLAG-ALPHABET", ["C07", "C17", "C13"], floor=9)
+@rule("FLAG-ALPHABET", ["C07", "C17", "C13", "C14"], floor=9)
 def flag_alphabet(ctx):
     """ReFlags::new: before ';' exactly i m s x q are accepted, each setting its own field (q only in XPath);
     after ';' exactly g k K; anything else -> Err(InvalidFlags)."""
@@ -101,7 +101,7 @@ def flag_alphabet(ctx):
     return out
 
 
-@rule("FLAG-GETTERS", ["C07", "C11", "C12", "C13", "C14", "C17"], floor=6)
+@rule("FLAG-GETTERS", ["C07", "C11", "C12", "C13", "C14", "C17", "C01"], floor=6)
 def flag_getters(ctx):
     """Each ReFlags getter returns its namesake field."""
     want = {"is_case_independent": "case_independent", "is_multi_line": "multi_line", "is_single_line": "single_line", "is_allow_whitespace": "allow_whitespace", "is_literal": "literal", "language": "language"}
